@@ -76,14 +76,62 @@ Definition chk_hist (c : jconf) (env : N -> list N) (hc : hcase) : bool :=
         region test), 2 = InvalidQueryError ---- *)
 Definition qcase := (st * list string * (N * list (list Z)))%type.
 
+(* Fast evaluation of the same join for the correspondence run: candidates are built dimension by dimension (last
+   dimension of the list innermost) and a planned table is applied as soon as all of its key columns are assigned,
+   instead of filtering the full product at the end.  `chk_fast` compares it with `query` itself on the cases that are
+   small enough for the brute-force definition. *)
+Definition complete_at (c : jconf) (assigned : list string) (t : elem) : bool :=
+  forallb (fun d => memb d assigned) (cols c t)
+  && match assigned with n :: _ => memb n (cols c t) | [] => false end.
+
+Fixpoint fcands (c : jconf) (d : db) (plan : list elem) (ns : list string) : list asg :=
+  match ns with
+  | [] => [[]]
+  | n :: r =>
+    let now := filter (complete_at c (n :: r)) plan in
+    let rest := fcands c d plan r in
+    filter (fun a => forallb (fun t => has_row c d t a) now)
+           (flat_map (fun v => map (cons (n, v)) rest) (dom d n))
+  end.
+
+Definition frun_plan (c : jconf) (ov : N -> N -> bool) (s : st) (plan : list elem) (ns : list string) : qres :=
+  if negb (covers c plan ns) then QIncomplete
+  else
+    let base := fcands c (recs s) plan (rev ns) in
+    match spatial_pair c ns with
+    | SpNone => QOk base
+    | SpMany => QInvalid
+    | SpPair ea eb =>
+      let sqlrows := filter (pre (ovl s) ea eb) base in
+      if existsb (fun a => has_null (recs s) ea a || has_null (recs s) eb a) sqlrows then QCrash
+      else QOk (filter (sp_overlap ov (recs s) ea eb) sqlrows)
+    end.
+
+Definition fquery (c : jconf) (ov : N -> N -> bool) (s : st) (ns : list string) : qres :=
+  frun_plan c ov s (full_plan c ns) ns.
+
 Definition chk_query (c : jconf) (ov : N -> N -> bool) (qc : qcase) : bool :=
   let '(s, ns, (code, rows)) := qc in
-  match query c ov s ns with
+  match fquery c ov s ns with
   | QOk l => N.eqb code 0 && set_eqb zlist_eqb (map (row_vals ns) l) rows
   | QCrash => N.eqb code 1
   | QInvalid => N.eqb code 2
   | QIncomplete => false
   end.
+
+Definition qres_eqb (ns : list string) (a b : qres) : bool :=
+  match a, b with
+  | QOk l, QOk m => set_eqb zlist_eqb (map (row_vals ns) l) (map (row_vals ns) m)
+  | QCrash, QCrash => true
+  | QInvalid, QInvalid => true
+  | QIncomplete, QIncomplete => true
+  | _, _ => false
+  end.
+
+(* fast evaluator = the model's `query`, and = the model's `spec` when the query returns rows *)
+Definition chk_fast (c : jconf) (ov : N -> N -> bool) (qc : qcase) : bool :=
+  let '(s, ns, _) := qc in
+  qres_eqb ns (fquery c ov s ns) (query c ov s ns).
 
 (* the model's own specification evaluated on the same state: used to cross-check plan against spec on every case *)
 Definition chk_spec (c : jconf) (ov : N -> N -> bool) (qc : qcase) : bool :=
